@@ -382,7 +382,10 @@ def r4_saved_position(ctx, rule):
     for n in walk_local(fn):
         if isinstance(n, ast.Assign) and len(n.targets) == 1 and U(n.targets[0]) == 'self.max_probability':
             assigns.append(n)
-    good = [a for a in assigns if popped and U(a.value) in ("%s.pt_item['prob']" % popped,)]
+    # the popped value may be bound as the QueueItem (x.pt_item['prob']) or already unwrapped (x = heappop(..).pt_item; x['prob'])
+    unwrapped = isinstance(pop_stmt, ast.Assign) and isinstance(pop_stmt.value, ast.Attribute) and pop_stmt.value.attr == 'pt_item' \
+        and pop_stmt.value.value is pops[0]
+    good = [a for a in assigns if popped and U(a.value) in (("%s['prob']" % popped,) if unwrapped else ("%s.pt_item['prob']" % popped,))]
     facts = {'pop': U(pop_stmt), 'assignments': [U(a) for a in assigns]}
     if not good:
         ctx.bad(rule, nq, 'max_probability not updated from the popped item: %s' % facts['assignments'],
